@@ -3,7 +3,7 @@
    flattened to one nested list of naturals so that one equality test compares everything. *)
 From Coq Require Import List Arith Bool NArith.
 From Verif.lib Require Import FinSet.
-From Verif.C04 Require Import Model Boundary Supports.
+From Verif.C04 Require Import Model Boundary Supports Children.
 Import ListNotations.
 
 Definition ob := list N.
@@ -120,13 +120,30 @@ Definition bd_obs (st : hspace) (bds : list bdspec) (bd : bdspec) (with_boundary
 Definition enc_dict (st : hspace) (n : nat) (r : list set) : ob :=
   flat_map (fun k => enc (cshape st k) (nth k r [])) (seq 0 n).
 
+(* function_children / grandchildren (to the finest level) / parents / grandparents (to level 0) of the
+   seeded functions of every level *)
+Definition kids_obs (st : hspace) (funcs : list (list mi)) : ob :=
+  let L := numlevels st in
+  flat_map (fun l =>
+    let fs := nth l funcs [] in
+    if is_empty fs then []
+    else (if S l <? L
+          then enc (fshape st (S l)) (function_children st l fs)
+               ++ enc (fshape st (L - 1)) (function_grandchildren st (L - 1 - l) l fs)
+          else [])
+         ++ (if 1 <=? l
+             then enc (fshape st (l - 1)) (function_parents st l fs)
+                  ++ enc (fshape st 0) (function_grandparents st l l fs)
+             else [])) (seq 0 L).
+
 Definition sup_obs (st : hspace) (funcs cells : list (list mi)) : ob :=
   let L := numlevels st in
   enc_dict st L (compute_supports st (map (fun l => lv_actfun (lvl st l)) (seq 0 L)))
   ++ enc_dict st L (compute_supports st funcs)
   ++ enc_dict st L (hmesh_cells st cells)
   ++ flat_map (fun p => enc_dict st (S (fst p)) (snd p))
-       (combine (seq 0 L) (compute_virtual_supports st (global_lists st))).
+       (combine (seq 0 L) (compute_virtual_supports st (global_lists st)))
+  ++ kids_obs st funcs.
 
 Definition step_full (st : hspace) (o : op) : hspace * bool * list set :=
   match o with
